@@ -1,6 +1,7 @@
 import E3fpVerif.Codec
 import E3fpVerif.Model.Fprinter
 import E3fpVerif.Model.FpObj
+import E3fpVerif.Model.Entry
 namespace E3fpVerif
 open Lean
 
@@ -45,6 +46,12 @@ def ltShellOut (a b : GShell) : Bool := a.atom < b.atom || (a.atom == b.atom && 
 
 def levelsJ (s : FState) : Json :=
   Json.arr (s.levelShells.map (fun l => Json.arr ((sortByLt ltShellOut l).map shellJ).toArray)).toArray
+
+def namedFpJ (x : NamedFp) : Json :=
+  Json.arr #[fpToJson x.fp, (match x.name with | some n => Json.str (String.mk n) | none => Json.null)]
+
+def entryJ (e : Int × List NamedFp) : Json :=
+  Json.arr #[Json.num (JsonNumber.fromInt e.1), Json.arr (e.2.map namedFpJ).toArray]
 
 def fprinterOp (op : String) (j : Json) : Except String Json := do
   match op with
@@ -96,6 +103,21 @@ def fprinterOp (op : String) (j : Json) : Except String Json := do
       | .error e, _ => outs := outs.push (errJ e)
       | _, _ => outs := outs.push (errJ .other)
     return okJ (Json.arr outs)
+  | "fpo.entry" =>
+    -- `fprints_dict_from_mol` without saving: the conformer loop on one reused fingerprinter object
+    let o ← jOpts (← jField j "opts")
+    let m ← jMol (← jField j "mol")
+    let confs ← jList jCoords (← jField j "confs")
+    let mult ← jFloatBits (← jField j "mult")
+    let name ← jOpt jStr (jFieldD j "name")
+    let first ← jInt (← jField j "first")
+    let allIters ← jBool (← jField j "all_iters")
+    let geos : List Geo := confs.map (fun cs => Geo.ofCoords mult (coordFn cs))
+    match entryRun o 0 m geos (name.map String.toList) first allIters with
+    | .error e => return errJ e
+    | .ok none => return okJ .null
+    | .ok (some d) =>
+      return okJ (Json.arr (d.map entryJ).toArray)
   | "fpr.hash" => return okJ (Json.num (murmur Gen.MMH3_SEED (← jList jInt (← jField j "words"))))
   | _ => .error s!"unknown op {op}"
 
